@@ -12,9 +12,10 @@ static const char *RN[] = {"mul_naive", "addmul_naive", "_mul_naive_t", "_mul_va
 void vh_mul_case(int route, int m, int l, int n, int kindA, int kindB, int param, int cnull) {
   int sq = (route == R_SQR || route == R_ADDSQR);
   if (sq) { l = m; n = m; }
-  mzd_t *A = vh_new(m, l);
+  /* vh_mk: owners, or (views mode, C09/C11) windows at sampled placements inside junk-filled parents */
+  mzd_t *A = vh_mk(m, l, -1);
   vh_fill_kind(A, kindA);
-  mzd_t *B = sq ? A : vh_new(l, n);
+  mzd_t *B = sq ? A : vh_mk(l, n, -1);
   if (!sq) vh_fill_kind(B, kindB);
   int acc = (route == R_ADDNAIVE || route == R_ADDM4RM || route == R_ADDMUL || route == R_ADDMULEVEN || route == R__ADDMUL || route == R_ADDSQR || route == R_ADDMP);
   int clear = 1;
@@ -22,12 +23,14 @@ void vh_mul_case(int route, int m, int l, int n, int kindA, int kindB, int param
   /* the accumulate routes that document / accept C == NULL ("zero matrix") */
   int nullacc = acc && cnull && (route == R_ADDMUL || route == R_ADDMP || route == R_ADDM4RM) && vh_randint(0, 2) == 0;
   int need_c = (acc && !nullacc) || !cnull || route == R_NAIVE_T || route == R_VA || route == R__M4RM || route == R_MULEVEN || route == R_DJB;
-  mzd_t *C = need_c ? vh_new(m, n) : NULL;
-  if (C) { if (acc) vh_fill_kind(C, 0); else if (route != R_DJB) vh_fill_kind(C, vh_randint(0, 3) ? 0 : 2); }
+  mzd_t *C = need_c ? vh_mk(m, n, -1) : NULL;
+  if (C) { if (acc) vh_fill_kind(C, 0); else if (route != R_DJB) vh_fill_kind(C, vh_randint(0, 3) ? 0 : 2); else vh_fill_kind(C, 2); /* DJB: a zeroed target */ }
   mzd_t *BT = NULL;
   if (route == R_NAIVE_T) {
     /* the route takes B pre-transposed; build it bit by bit, independent of mzd_transpose */
-    BT = vh_new(n, l);
+    /* always an owner: the internal routine relies on zero bits beyond the last column of (at least) the transposed factor,
+     * which is what its only caller hands it (a fresh mzd_transpose) */
+    BT = vh_mk(n, l, 0);
     for (int i = 0; i < l; i++)
       for (int j = 0; j < n; j++)
         if ((B->data[(size_t)i * B->rowstride + j / 64] >> (j % 64)) & 1) BT->data[(size_t)j * BT->rowstride + i / 64] |= (word)1 << (i % 64);
